@@ -148,13 +148,22 @@ func isTimerChan(t types.Type) bool {
 // timerTick: receiving from a timer counts as one full interval waited (sleeps += 1) only if
 // the timer was armed after this goroutine's last send: a timer armed before a batch of
 // sends may already have expired when the batch is done, so nothing is known to elapse.
-func (x *Exec) timerTick(st *State, ch Term) {
-	one := tInt(1)
+func (x *Exec) timerTick(st *State, ch Term) { x.timerTickDur(st, ch, Term{}) }
+
+// timerTickDur: as timerTick; when the contract declares the length of a tick (`opt
+// tick=<duration parameter>`) a wait counts only if its duration is at least that long
+// (dur is the duration of an inline time.After(d); a timer value carries its own).
+func (x *Exec) timerTickDur(st *State, ch Term, dur Term) {
+	cond := tTrue
 	if ch.S != "" {
 		armed := tSelect(x.heapMap(st, "TimerArmed", "Int"), ch, "Int")
-		one = tIte(tEq(armed, x.ghostInt(st, "actions")), tInt(1), tInt(0))
+		cond = tEq(armed, x.ghostInt(st, "actions"))
+		dur = tSelect(x.heapMap(st, "TimerDur", "Int"), ch, "Int")
 	}
-	st.ghosts["sleeps"] = tApp("Int", "+", x.ghostInt(st, "sleeps"), one)
+	if x.tickDur.ok() && dur.ok() {
+		cond = tAnd(cond, tApp("Bool", ">=", dur, x.tickDur))
+	}
+	st.ghosts["sleeps"] = tApp("Int", "+", x.ghostInt(st, "sleeps"), tIte(cond, tInt(1), tInt(0)))
 }
 
 func (x *Exec) ghostBool(st *State, name string) Term {
@@ -273,6 +282,7 @@ func (x *Exec) selectStmt(st *State, fr *Frame, s *ast.SelectStmt, k func(*State
 		kind string // send, recv, cancel, timer, default
 		ch   Term
 		val  Term
+		dur  Term // duration of an inline time.After(d) arm
 	}
 	clauses := s.Body.List
 	// operands are evaluated first, in source order; an operand may fork (a local closure
@@ -314,7 +324,7 @@ func (x *Exec) selectStmt(st *State, fr *Frame, s *ast.SelectStmt, k func(*State
 			case "cancel":
 				b.ghosts["sawCancel"] = tTrue
 			case "timer":
-				x.timerTick(b, a.ch)
+				x.timerTickDur(b, a.ch, a.dur)
 			case "send":
 				b.assume(tNot(tEq(a.ch, nullRef))) // a nil channel is never ready
 				x.chanSend(b, fr, a.ch, a.val, a.cc, true)
@@ -379,7 +389,16 @@ func (x *Exec) selectStmt(st *State, fr *Frame, s *ast.SelectStmt, k func(*State
 				next(cur, a)
 			case x.isTimeAfter(rx):
 				a.kind = "timer"
-				next(cur, a)
+				if x.tickDur.ok() {
+					// the duration matters: only a wait of at least the declared tick counts
+					x.exprK(cur, fr, ast.Unparen(rx).(*ast.CallExpr).Args[0], func(s2 *State, d Term) {
+						b := a
+						b.dur = d
+						next(s2, b)
+					})
+				} else {
+					next(cur, a)
+				}
 			case isTimerChan(x.info.TypeOf(rx)):
 				x.exprK(cur, fr, rx, func(s2 *State, chT Term) {
 					b := a
